@@ -157,7 +157,23 @@ theorem loop_shape :
     Skel.precedes (.call "utils.ListPendingRequests") (.call "time.Sleep") skel_agent_pollForNewRequests = true ∧
     Skel.count (.call "time.Sleep") skel_agent_pollForNewRequests = 1 := by decide
 
+/-- What counts as a failing list call (regenerated decision of `parseRequestIDs`): every reply
+    whose status is not 200 — with a body, with an empty body, with a JSON body — and every
+    reply that cannot be read or parsed; only a 200 with an empty body or a well-formed list is a
+    success.  So a proxy or load balancer answering bare 502/503s is backed off from. -/
+theorem list_failure_classification (readErr : Bool) (status : Int) (bodyLen : Int) (jsonErr : Bool) :
+    utils_parseRequestIDsFails readErr status bodyLen jsonErr =
+      (readErr || status != 200 || (decide (0 < bodyLen) && jsonErr)) := by
+  cases readErr <;> cases jsonErr <;> by_cases h1 : status = 200 <;> by_cases h2 : bodyLen ≤ 0 <;>
+    simp [utils_parseRequestIDsFails, Id.run, pure, h1, h2] <;> omega
+
+theorem error_status_is_failure (status : Int) (bodyLen : Int) (jsonErr : Bool) (h : status ≠ 200) :
+    utils_parseRequestIDsFails false status bodyLen jsonErr = true := by
+  simp [utils_parseRequestIDsFails, Id.run, pure, h]
+
 -- non-vacuity: concrete instances
+example : utils_parseRequestIDsFails false 503 0 false = true ∧ utils_parseRequestIDsFails false 200 0 false = false ∧
+    utils_parseRequestIDsFails false 200 12 true = true := by decide
 example : (utils_backoffTarget 0#64).toNat = 1000000 := by decide
 example : (utils_backoffTarget 11#64).toNat = 2048000000 := by decide
 example : (utils_backoffTarget 12#64).toNat = 3000000000 := by decide
